@@ -191,8 +191,194 @@ def _unloop_yield_from(fn: ast.AST) -> None:
                     todo.append(st)
 
 
+def _stmt_blocks(fn: ast.AST):
+    """Every statement list of *fn* (nested defs / classes excluded)."""
+    todo = [fn]
+    while todo:
+        n = todo.pop()
+        bs = [b for f in ("body", "orelse", "finalbody") for b in [getattr(n, f, None)] if isinstance(b, list) and b and isinstance(b[0], ast.stmt)]
+        bs += [h.body for h in getattr(n, "handlers", []) or []]
+        bs += [c.body for c in getattr(n, "cases", []) or []]
+        for b in bs:
+            yield b
+            for st in b:
+                if not isinstance(st, FuncNode + (ast.ClassDef,)):
+                    todo.append(st)
+
+
+def _canon_records(fn: ast.AST) -> ast.AST:
+    """One spelling (in place, on a working copy) for the ways of assembling / traversing a mapping that mean the same:
+
+      X.update({k: v, ..}) / X.update(k=v)        ->  X[k] = v; ..                  (X a local that holds a dict)
+      if K in X: del X[K]                         ->  X.pop(K, None)
+      X = {a: b}; X[k] = v  (consecutive)         ->  X = {a: b, k: v}              (same keys, values and order)
+      X = {}; for T in I: [if C:] X[k] = v        ->  X = {k: v for T in I if C}
+      K in X.keys()                               ->  K in X
+      {.. C[k] .. for k in C [.keys()] ..}        ->  {.. v .. for (k, v) in C.items() ..}   (any comprehension)
+
+    so a rule that reads a record decides on what ends up under which key, not on how it was put there."""
+    from ..normal import _loop_to_comp
+
+    def names_in(e: ast.AST) -> Set[str]:
+        return {x.id for x in ast.walk(e) if isinstance(x, ast.Name)}
+
+    def is_dict_value(v: Optional[ast.AST]) -> bool:
+        return isinstance(v, (ast.Dict, ast.DictComp)) or (isinstance(v, ast.Call) and dotted_name(v.func) == "dict")
+
+    dict_locals: Set[str] = set()
+    for n in walk_no_nested(fn):
+        if isinstance(n, ast.Assign) and is_dict_value(n.value):
+            dict_locals |= {t.id for t in n.targets if isinstance(t, ast.Name)}
+        elif isinstance(n, ast.AnnAssign) and isinstance(n.target, ast.Name) and is_dict_value(n.value):
+            dict_locals.add(n.target.id)
+
+    def store(x: str, k: ast.AST, v: ast.AST, at: ast.AST) -> ast.stmt:
+        st = ast.Assign(targets=[ast.Subscript(value=ast.Name(id=x, ctx=ast.Load()), slice=k, ctx=ast.Store())], value=v)
+        for y in ast.walk(st):
+            ast.copy_location(y, at)
+        return st
+
+    def own_store(st: ast.stmt, x: str) -> Optional[Tuple[ast.AST, ast.AST]]:
+        if (isinstance(st, ast.Assign) and len(st.targets) == 1 and isinstance(st.targets[0], ast.Subscript) and isinstance(st.targets[0].value, ast.Name)
+                and st.targets[0].value.id == x and not isinstance(st.targets[0].slice, ast.Slice) and x not in names_in(st.targets[0].slice) | names_in(st.value)):
+            return st.targets[0].slice, st.value
+        return None
+
+    for block in list(_stmt_blocks(fn)):
+        # update with a display / keywords -> stores; delete behind a membership test -> pop
+        i = 0
+        while i < len(block):
+            st = block[i]
+            c = st.value if isinstance(st, ast.Expr) else None
+            if (isinstance(c, ast.Call) and isinstance(c.func, ast.Attribute) and c.func.attr == "update" and isinstance(c.func.value, ast.Name) and c.func.value.id in dict_locals
+                    and (c.args or c.keywords) and len(c.args) <= 1 and all(isinstance(a, ast.Dict) and None not in a.keys for a in c.args) and all(k.arg is not None for k in c.keywords)):
+                pairs = [(k, v) for a in c.args for k, v in zip(a.keys, a.values)] + [(ast.Constant(value=k.arg), k.value) for k in c.keywords]
+                block[i:i + 1] = [store(c.func.value.id, k, v, st) for k, v in pairs]
+                i += len(pairs)
+                continue
+            if isinstance(st, ast.If) and not st.orelse and len(st.body) == 1 and isinstance(st.body[0], ast.Delete) and len(st.body[0].targets) == 1:
+                m = kany(["_K_ in _X_", "_K_ in _X_.keys()"], st.test)
+                t = st.body[0].targets[0]
+                if m and isinstance(m["_X_"], ast.Name) and isinstance(t, ast.Subscript) and ast.dump(t.value) == ast.dump(m["_X_"]) and ast.dump(t.slice) == ast.dump(m["_K_"]):
+                    new = ast.Expr(value=ast.Call(func=ast.Attribute(value=m["_X_"], attr="pop", ctx=ast.Load()), args=[m["_K_"], ast.Constant(value=None)], keywords=[]))
+                    for y in ast.walk(new):
+                        ast.copy_location(y, st)
+                    block[i] = new
+            i += 1
+        # display + consecutive stores -> display; empty dict + store loop -> comprehension
+        i = 0
+        while i + 1 < len(block):
+            st, nx = block[i], block[i + 1]
+            x = None
+            if isinstance(st, ast.Assign) and len(st.targets) == 1 and isinstance(st.targets[0], ast.Name):
+                x = st.targets[0].id
+            elif isinstance(st, ast.AnnAssign) and isinstance(st.target, ast.Name) and st.value is not None:
+                x = st.target.id
+            v = getattr(st, "value", None)
+            if x is not None and isinstance(v, ast.Call) and dotted_name(v.func) == "dict" and not v.args and not v.keywords:
+                v = st.value = ast.copy_location(ast.Dict(keys=[], values=[]), v)
+            if x is None or not isinstance(v, ast.Dict):
+                i += 1
+                continue
+            kv = own_store(nx, x)
+            if kv is not None:
+                v.keys.append(kv[0])
+                v.values.append(kv[1])
+                del block[i + 1]
+                continue
+            if not v.keys and isinstance(nx, ast.For):
+                r = _loop_to_comp(x, nx)
+                if r is not None and r[0] == "dict" and not any(x in names_in(g) for g in r[2]) and x not in names_in(r[1]) | names_in(r[3]):
+                    st.value = ast.copy_location(ast.DictComp(key=r[1], value=r[3], generators=r[2]), nx)
+                    del block[i + 1]
+            i += 1
+    # membership in the keys of a mapping is membership in the mapping
+    for cmp_ in [n for n in ast.walk(fn) if isinstance(n, ast.Compare)]:
+        for ci, (op, right) in enumerate(zip(cmp_.ops, cmp_.comparators)):
+            if isinstance(op, (ast.In, ast.NotIn)):
+                m = kmatch("_X_.keys()", right)
+                if m:
+                    cmp_.comparators[ci] = m["_X_"]
+    # comprehensions over the keys of a mapping that look the value up -> over its items
+    taken = {x.id for x in ast.walk(fn) if isinstance(x, ast.Name)}
+    for comp in [n for n in ast.walk(fn) if isinstance(n, (ast.ListComp, ast.SetComp, ast.GeneratorExp, ast.DictComp))]:
+        for gi, gen in enumerate(comp.generators):
+            if not isinstance(gen.target, ast.Name) or gen.is_async:
+                continue
+            m = kmatch("_X_.keys()", gen.iter)
+            src = m["_X_"] if m else gen.iter
+            if dotted_name(src) is None:
+                continue
+            k = gen.target.id
+            scope: List[ast.AST] = list(gen.ifs) + [y for g2 in comp.generators[gi + 1:] for y in [g2.iter] + list(g2.ifs)]
+            scope += [comp.key, comp.value] if isinstance(comp, ast.DictComp) else [comp.elt]
+            want = ast.dump(ast.Subscript(value=src, slice=ast.Name(id=k, ctx=ast.Load()), ctx=ast.Load()))
+            hits = [y for e in scope for y in ast.walk(e) if isinstance(y, ast.Subscript) and isinstance(y.ctx, ast.Load) and ast.dump(y) == want]
+            if not hits:
+                continue
+            vname = f"{k}__item"
+            while vname in taken:
+                vname += "_"
+            taken.add(vname)
+
+            class T(ast.NodeTransformer):
+                def visit_Subscript(self, n):
+                    if any(n is h for h in hits):
+                        return ast.copy_location(ast.Name(id=vname, ctx=ast.Load()), n)
+                    return self.generic_visit(n)
+
+            gen.ifs = [T().visit(e) for e in gen.ifs]
+            for g2 in comp.generators[gi + 1:]:
+                g2.iter = T().visit(g2.iter)
+                g2.ifs = [T().visit(e) for e in g2.ifs]
+            if isinstance(comp, ast.DictComp):
+                comp.key, comp.value = T().visit(comp.key), T().visit(comp.value)
+            else:
+                comp.elt = T().visit(comp.elt)
+            gen.target = ast.copy_location(ast.Tuple(elts=[ast.copy_location(ast.Name(id=k, ctx=ast.Store()), gen.target), ast.copy_location(ast.Name(id=vname, ctx=ast.Store()), gen.target)], ctx=ast.Store()), gen.target)
+            gen.iter = ast.copy_location(ast.Call(func=ast.Attribute(value=src, attr="items", ctx=ast.Load()), args=[], keywords=[]), gen.iter)
+            for y in ast.walk(gen.iter):
+                if not hasattr(y, "lineno"):
+                    ast.copy_location(y, gen.target)
+    ast.fix_missing_locations(fn)
+    return fn
+
+
+def _unroll_sweep_comprehension(fn: ast.AST) -> ast.AST:
+    """`X = [E for T in <.. _iterate_sweep(..) ..>]` is `X = []; for T in ..: X.append(E)` (in place, on a working copy):
+    the rules on the generated bodies are stated on the loop over the sweep's steps, whichever way it is written."""
+    stored: Dict[str, int] = {}
+    for x in ast.walk(fn):
+        if isinstance(x, ast.Name) and isinstance(x.ctx, ast.Store):
+            stored[x.id] = stored.get(x.id, 0) + 1
+    for block in list(_stmt_blocks(fn)):
+        for i, st in enumerate(block):
+            tg = st.targets[0] if isinstance(st, ast.Assign) and len(st.targets) == 1 else getattr(st, "target", None) if isinstance(st, ast.AnnAssign) else None
+            v = getattr(st, "value", None)
+            if not isinstance(tg, ast.Name) or not isinstance(v, ast.ListComp) or len(v.generators) != 1 or v.generators[0].ifs or v.generators[0].is_async:
+                continue
+            gen = v.generators[0]
+            if not any(isinstance(c, ast.Call) and "_iterate_sweep" in (call_name(c) or "", call_attr(c) or "") for c in ast.walk(gen.iter)):
+                continue
+            tnames = [t.id for t in ast.walk(gen.target) if isinstance(t, ast.Name)]
+            if any(stored.get(t, 0) != 1 for t in tnames) or tg.id in {x.id for x in ast.walk(v) if isinstance(x, ast.Name)}:
+                continue  # the loop variable would leak over another local / the list is read while it is built
+            init = ast.Assign(targets=[ast.Name(id=tg.id, ctx=ast.Store())], value=ast.List(elts=[], ctx=ast.Load()))
+            app = ast.Expr(value=ast.Call(func=ast.Attribute(value=ast.Name(id=tg.id, ctx=ast.Load()), attr="append", ctx=ast.Load()), args=[v.elt], keywords=[]))
+            loop = ast.For(target=gen.target, iter=gen.iter, body=[app], orelse=[])
+            for new_st in (init, loop):
+                for y in ast.walk(new_st):
+                    if not hasattr(y, "lineno"):
+                        ast.copy_location(y, st)
+            block[i:i + 1] = [init, loop]
+            return _unroll_sweep_comprehension(fn)
+    ast.fix_missing_locations(fn)
+    return fn
+
+
 class Flow:
-    """Working copy of a (normal-form) function: calls with sorted keywords, `yield from <genexp>` as a loop,
+    """Working copy of a (normal-form) function: one spelling for the ways a mapping is assembled / traversed
+    (_canon_records), calls with sorted keywords, `yield from <genexp>` as a loop,
     a CFG without implicit exception edges, and *value expansion*: a local name read at a CFG node is replaced
     by the right-hand sides of the definitions that reach that node (recursively, optionally only along the
     paths of one scenario = a set of blocked branch edges).  What is left are parameters as they were at
@@ -201,7 +387,7 @@ class Flow:
     independent statements do not matter."""
 
     def __init__(self, nf: ast.AST, post=None):
-        self.fn = clone(nf)
+        self.fn = _canon_records(clone(nf))
         _unloop_yield_from(self.fn)
         _sort_keywords(self.fn)
         ast.fix_missing_locations(self.fn)
@@ -288,6 +474,27 @@ class Flow:
                             return a.value.elts[idx[0]]
                         return ast.Subscript(value=a.value, slice=ast.Constant(value=idx[0]), ctx=ast.Load())
         return ast.Name(id=f"__opaque_{name}__", ctx=ast.Load())
+
+    def record_of(self, e: ast.AST, at: int) -> Optional[ast.Dict]:
+        """The dict display *e* stands for at CFG node *at*: a display, or a local with exactly one reaching definition
+        that is a display (as assembled - see _canon_records), not modified afterwards, whose entries read nothing that
+        is re-bound between the definition and *at* (so they mean the same at *at* and can be expanded there)."""
+        if isinstance(e, ast.Dict):
+            return e
+        if not isinstance(e, ast.Name) or e.id in self.mutated:
+            return None
+        ds, entry = self.rdefs(e.id, at)
+        if entry or len(ds) != 1:
+            return None
+        v = self._def_value(e.id, ds[0])
+        if not isinstance(v, ast.Dict):
+            return None
+        for x in ast.walk(v):
+            if isinstance(x, ast.Name) and isinstance(x.ctx, ast.Load) and x.id in self.defnodes:
+                a, b = self.rdefs(x.id, ds[0]), self.rdefs(x.id, at)
+                if (sorted(a[0]), a[1]) != (sorted(b[0]), b[1]):
+                    return None
+        return v
 
     def expand(self, e: ast.AST, at: int, be=frozenset(), keep: Iterable[str] = (), _depth: int = 0) -> List[ast.AST]:
         """All expansions of expression *e* evaluated at CFG node *at* (see class doc)."""
@@ -376,6 +583,49 @@ class Flow:
                     out.add((n.id, lab))
         return out
 
+    def truth(self, test: ast.AST, known, at: int, be=frozenset()) -> Optional[bool]:
+        """Three-valued value of *test* when the atomic tests have the truth values *known* gives them (None: not known)."""
+        if isinstance(test, ast.UnaryOp) and isinstance(test.op, ast.Not):
+            return _tri_not(self.truth(test.operand, known, at, be))
+        if isinstance(test, ast.BoolOp):
+            vs = [self.truth(v, known, at, be) for v in test.values]
+            return _tri_all(vs) if isinstance(test.op, ast.And) else _tri_not(_tri_all([_tri_not(v) for v in vs]))
+        return self.atom_on(known, at, be)(test)
+
+    def impossible(self, known, be=frozenset()) -> Set[Tuple[int, str]]:
+        """Branch edges that cannot be taken in the scenario in which the atomic tests have the truth values of *known*:
+        the scenario is followed through compound tests (`a and b`, `not a or b`) as well as through plain ones."""
+        out: Set[Tuple[int, str]] = set()
+        for n in self.g.nodes:
+            if n.kind in ("if", "while") and n.part is not None:
+                v = self.truth(n.part, known, n.id, be)
+                if v is not None:
+                    out.add((n.id, "F" if v else "T"))
+        return out
+
+    def edges_in(self, atom, known, be=frozenset()) -> Set[Tuple[int, str]]:
+        """Branch edges on which *atom* is guaranteed to hold in the scenario *known* (a conjunct that is true in the
+        scenario cannot be the reason for an `and` to be false; a disjunct that is false cannot make an `or` true)."""
+        out: Set[Tuple[int, str]] = set()
+        for n in self.g.nodes:
+            if n.kind in ("if", "while") and n.part is not None:
+                for lab in self._edges_in(n.part, self.atom_on(atom, n.id, be), lambda t, _n=n: self.truth(t, known, _n.id, be)):
+                    out.add((n.id, lab))
+        return out
+
+    def _edges_in(self, test: ast.AST, atom, tv) -> Set[str]:
+        out = set(_edges(test, atom))
+        if isinstance(test, ast.UnaryOp) and isinstance(test.op, ast.Not):
+            out |= {"F" if e == "T" else "T" for e in self._edges_in(test.operand, atom, tv)}
+        elif isinstance(test, ast.BoolOp):
+            subs = [(self._edges_in(v, atom, tv), tv(v)) for v in test.values]
+            if isinstance(test.op, ast.And):
+                if all(k is True or "F" in x for x, k in subs) and any("F" in x for x, _k in subs):
+                    out.add("F")
+            elif all(k is False or "T" in x for x, k in subs) and any("T" in x for x, _k in subs):
+                out.add("T")
+        return out
+
     def holds_at(self, expr: ast.AST, atom, be=frozenset()) -> bool:
         """Whenever *expr* is evaluated, *atom* holds: its statement is reached only through guaranteeing branch
         edges, or it sits in the guaranteeing arm of a conditional expression."""
@@ -422,12 +672,13 @@ def _leaves(e: ast.AST, conds: Tuple = ()) -> List[Tuple[ast.AST, Tuple]]:
     return [(e, conds)]
 
 
-def _merge_layers(fn: ast.AST, sources: Set[str]) -> Optional[List[str]]:
-    """The mappings layered into the dict that *fn* returns, in order (a later layer overwrites an earlier one);
-    None when the function body is not a straight-line composition of copies / updates of *sources*."""
-    env: Dict[str, List[str]] = {}
+def _merge_layers(fn: ast.AST, sources: Set[str]) -> Optional[List[Tuple[List[str], Set[str]]]]:
+    """For every path through *fn* to a return: (the mappings layered into the returned dict, in order - a later layer
+    overwrites an earlier one -, the source mappings known to be empty on that path, which are left out of the layers:
+    layering an empty mapping changes nothing).  None when the body is not a composition of copies / updates of *sources*
+    behind tests of their emptiness."""
 
-    def val(e: ast.AST) -> Optional[List[str]]:
+    def val(e: ast.AST, env: Dict[str, List[str]]) -> Optional[List[str]]:
         if isinstance(e, ast.Name):
             return [e.id] if e.id in sources else (list(env[e.id]) if e.id in env else None)
         if isinstance(e, ast.Dict):
@@ -435,13 +686,16 @@ def _merge_layers(fn: ast.AST, sources: Set[str]) -> Optional[List[str]]:
             for k, v in zip(e.keys, e.values):
                 if k is not None:
                     return None
-                x = val(v)
+                x = val(v, env)
                 if x is None:
                     return None
                 out += x
             return out
+        if isinstance(e, ast.DictComp):  # an entry-by-entry copy
+            m = kany(["{_k_: _v_ for (_k_, _v_) in _X_.items()}", "{_k_: _X_[_k_] for _k_ in _X_}", "{_k_: _X_[_k_] for _k_ in _X_.keys()}"], e)
+            return val(m["_X_"], env) if m else None
         if isinstance(e, ast.BinOp) and isinstance(e.op, ast.BitOr):
-            l, r = val(e.left), val(e.right)
+            l, r = val(e.left, env), val(e.right, env)
             return None if l is None or r is None else l + r
         if isinstance(e, ast.Call):
             fnm = dotted_name(e.func)
@@ -449,59 +703,176 @@ def _merge_layers(fn: ast.AST, sources: Set[str]) -> Optional[List[str]]:
                 out = []
                 for x in list(e.args) + [k.value for k in e.keywords]:
                     m = kmatch("_X_.items()", x)
-                    y = val(m["_X_"] if m else x)
+                    y = val(m["_X_"] if m else x, env)
                     if y is None:
                         return None
                     out += y
                 return out
             if isinstance(e.func, ast.Attribute) and e.func.attr == "copy" and not e.args and not e.keywords:
-                return val(e.func.value)
+                return val(e.func.value, env)
         return None
 
-    def update(target: str, e: ast.AST) -> bool:
-        x = val(e)
+    def update(target: str, e: ast.AST, env: Dict[str, List[str]]) -> bool:
+        x = val(e, env)
         if target not in env or x is None:
             return False
         env[target] = env[target] + x
         return True
 
-    for st in fn.body:
-        if isinstance(st, ast.Expr) and isinstance(st.value, ast.Constant):
-            continue
-        if isinstance(st, ast.Return):
-            return val(st.value) if st.value is not None else None
-        if isinstance(st, (ast.Assign, ast.AnnAssign)) and getattr(st, "value", None) is not None:
-            tg = st.targets[0] if isinstance(st, ast.Assign) and len(st.targets) == 1 else getattr(st, "target", None)
-            x = val(st.value)
-            if not isinstance(tg, ast.Name) or x is None or tg.id in sources:
-                return None
-            env[tg.id] = x
-            continue
-        if isinstance(st, ast.AugAssign) and isinstance(st.op, ast.BitOr) and isinstance(st.target, ast.Name) and update(st.target.id, st.value):
-            continue
-        if isinstance(st, ast.Expr):
-            m = kmatch("_M_.update(_Y_)", st.value) or kmatch("_M_.update(**_Y_)", st.value)
-            if m and isinstance(m["_M_"], ast.Name) and update(m["_M_"].id, m["_Y_"]):
-                continue
-        if isinstance(st, ast.For):
-            m = (kmatch("for (_k_, _v_) in _Y_.items():\n    _M_[_k_] = _v_", st) or kmatch("for _k_ in _Y_:\n    _M_[_k_] = _Y_[_k_]", st)
-                 or kmatch("for _k_ in _Y_.keys():\n    _M_[_k_] = _Y_[_k_]", st))
-            if m and isinstance(m["_M_"], ast.Name) and update(m["_M_"].id, m["_Y_"]):
-                continue
+    def emptiness(t: ast.AST) -> Optional[Tuple[str, bool]]:
+        """(source, True) when the truth of *t* says the source mapping is empty, (source, False) when it says it is not"""
+        if isinstance(t, ast.UnaryOp) and isinstance(t.op, ast.Not):
+            r = emptiness(t.operand)
+            return (r[0], not r[1]) if r else None
+        if isinstance(t, ast.Name) and t.id in sources:
+            return (t.id, False)
+        m = kany(["len(_X_) == 0", "_X_ == {}", "len(_X_) < 1"], t)
+        if m and isinstance(m["_X_"], ast.Name) and m["_X_"].id in sources:
+            return (m["_X_"].id, True)
+        m = kany(["len(_X_) > 0", "len(_X_) != 0", "_X_ != {}", "len(_X_) >= 1", "len(_X_)"], t)
+        if m and isinstance(m["_X_"], ast.Name) and m["_X_"].id in sources:
+            return (m["_X_"].id, False)
         return None
-    return None
+
+    results: List[Tuple[List[str], Set[str]]] = []
+
+    class Unknown(Exception):
+        pass
+
+    def walk(stmts: List[ast.stmt], env: Dict[str, List[str]], empty: Set[str]) -> None:
+        for i, st in enumerate(stmts):
+            if isinstance(st, ast.Expr) and isinstance(st.value, ast.Constant):
+                continue
+            if isinstance(st, ast.Return):
+                x = val(st.value, env) if st.value is not None else None
+                if x is None:
+                    raise Unknown()
+                results.append(([l for l in x if l not in empty], set(empty)))
+                return
+            if isinstance(st, ast.If):
+                r = emptiness(st.test)
+                for arm, is_true in ((st.body, True), (st.orelse, False)):
+                    e2 = set(empty)
+                    if r is not None and r[1] == is_true:
+                        e2.add(r[0])
+                    if r is not None and r[1] != is_true and r[0] in empty:
+                        continue  # the source is known to be empty: this arm is not taken
+                    walk(list(arm) + list(stmts[i + 1:]), {k: list(v) for k, v in env.items()}, e2)
+                return
+            if isinstance(st, (ast.Assign, ast.AnnAssign)) and getattr(st, "value", None) is not None:
+                tg = st.targets[0] if isinstance(st, ast.Assign) and len(st.targets) == 1 else getattr(st, "target", None)
+                x = val(st.value, env)
+                if not isinstance(tg, ast.Name) or x is None or tg.id in sources:
+                    raise Unknown()
+                env[tg.id] = x
+                continue
+            if isinstance(st, ast.AugAssign) and isinstance(st.op, ast.BitOr) and isinstance(st.target, ast.Name) and update(st.target.id, st.value, env):
+                continue
+            if isinstance(st, ast.Expr):
+                m = kmatch("_M_.update(_Y_)", st.value) or kmatch("_M_.update(**_Y_)", st.value)
+                if m and isinstance(m["_M_"], ast.Name) and update(m["_M_"].id, m["_Y_"], env):
+                    continue
+            if isinstance(st, ast.For):
+                m = (kmatch("for (_k_, _v_) in _Y_.items():\n    _M_[_k_] = _v_", st) or kmatch("for _k_ in _Y_:\n    _M_[_k_] = _Y_[_k_]", st)
+                     or kmatch("for _k_ in _Y_.keys():\n    _M_[_k_] = _Y_[_k_]", st))
+                if m and isinstance(m["_M_"], ast.Name) and update(m["_M_"].id, m["_Y_"], env):
+                    continue
+            raise Unknown()
+        raise Unknown()  # falls off the end without returning the merged mapping
+
+    try:
+        walk(list(fn.body), {}, set())
+    except Unknown:
+        return None
+    return results or None
 
 
-def _bind_args(call: ast.Call, names: List[str]) -> Optional[Dict[str, ast.AST]]:
-    """Arguments of *call* by parameter name (positional ones through *names*); None when it cannot be told."""
-    if any(isinstance(a, ast.Starred) for a in call.args) or any(k.arg is None for k in call.keywords) or len(call.args) > len(names):
+def _bind_args(call: ast.Call, names: List[str], record=None) -> Optional[Dict[str, ast.AST]]:
+    """Arguments of *call* by parameter name (positional ones through *names*); None when it cannot be told.
+    `**rec` is read entry by entry when *record* (expression -> the one display it stands for at the call, see
+    Flow.record_of) shows it to be a display with constant names: `f(**{'a': x}, b=y)` is `f(a=x, b=y)`."""
+    if any(isinstance(a, ast.Starred) for a in call.args) or len(call.args) > len(names):
         return None
     out = {n: a for n, a in zip(names, call.args)}
     for k in call.keywords:
-        if k.arg in out:
-            return None
-        out[k.arg] = k.value
+        if k.arg is None:
+            d = record(k.value) if record is not None else None
+            if not isinstance(d, ast.Dict) or not all(isinstance(x, ast.Constant) and isinstance(x.value, str) for x in d.keys):
+                return None
+            entries = [(x.value, v) for x, v in zip(d.keys, d.values)]
+        else:
+            entries = [(k.arg, k.value)]
+        for nm, v in entries:
+            if nm in out:
+                return None
+            out[nm] = v
     return out
+
+
+def _strip_cast(e: ast.AST) -> ast.AST:
+    """`cast(T, x)` is x at run time"""
+    while True:
+        m = kany(["cast(_T_, _X_)", "typing.cast(_T_, _X_)"], e)
+        if not m:
+            return e
+        e = m["_X_"]
+
+
+def _field_read(F: "Flow", e: Optional[ast.AST], at: int, recv, key: str, defaults: Iterable[str]) -> bool:
+    """Expression *e*, evaluated at CFG node *at* of *F*, is `M.get(key, default)` - the entry *key* of the mapping M
+    (what *recv* recognises, applied to the expanded receiver) when the key is present, one of the *defaults* (patterns)
+    when it is not - however that is spelled: `M.get(key, d)`, `M[key] if key in M else d`, an if / else or a guard that
+    re-assigns a default.  Decided per scenario (key present / key absent): the branch edges that are impossible in the
+    scenario are blocked, the value is expanded along the remaining paths, the arms of conditional expressions that the
+    scenario excludes are dropped, and what is left has to be the entry (present) or the default (absent)."""
+    if e is None:
+        return False
+    defaults = list(defaults)
+
+    def is_key(k: ast.AST) -> bool:
+        return isinstance(k, ast.Constant) and k.value == key
+
+    def present(t: ast.AST) -> Optional[bool]:
+        m, pol = kmatch("_K_ in _X_", t), True
+        if not m:
+            m, pol = kmatch("_K_ not in _X_", t), False
+        if not m:
+            m = kany(["_K_ in _X_.keys()", "_X_.__contains__(_K_)"], t)
+            pol = True
+        if m and is_key(m["_K_"]) and recv(m["_X_"]):
+            return pol
+        return None
+
+    def absent(t: ast.AST) -> Optional[bool]:
+        return _tri_not(present(t))
+
+    def entry(leaf: ast.AST, scenario: str) -> bool:
+        m = kmatch("_X_[_K_]", leaf)
+        if m:
+            return scenario == "present" and is_key(m["_K_"]) and recv(m["_X_"])
+        m = kmatch("_X_.get(_K_)", leaf)
+        if m:
+            return is_key(m["_K_"]) and recv(m["_X_"]) and (scenario == "present" or "None" in defaults)
+        m = kmatch("_X_.get(_K_, _D_)", leaf)
+        if m:
+            return is_key(m["_K_"]) and recv(m["_X_"]) and (scenario == "present" or kany(defaults, m["_D_"]) is not None)
+        return scenario == "absent" and kany(defaults, leaf) is not None
+
+    for scenario, impossible, anti in (("present", absent, absent), ("absent", present, present)):
+        be = frozenset(F.edges(impossible))
+        if at not in F.reachable(be):
+            continue
+        leaves = 0
+        for x in F.expand(e, at, be):
+            for leaf, conds in _split_ifexp(_strip_cast(x)):
+                if any(lab in _edges(t, anti) for t, lab in conds):
+                    continue  # an arm taken in the other scenario only
+                leaves += 1
+                if not entry(_strip_cast(leaf), scenario):
+                    return False
+        if not leaves:
+            return False
+    return True
 
 
 def _reads_created(e: ast.AST) -> bool:
@@ -525,15 +896,21 @@ def _node_publication(repo: Repo, R: Report, rule: str, qn: str) -> int:
     exits = {g.ret_exit, g.exc_exit, g.base_exit}
     found = 0
     for lp in [n for n in walk_no_nested(nf) if isinstance(n, ast.For)]:
+        # the traversal: (key, sequence) pairs of D, or its keys with the sequence read as D[key]
         m = match("_D_.items()", lp.iter)
         t = lp.target
-        if not m or not (isinstance(t, ast.Tuple) and len(t.elts) == 2 and all(isinstance(e, ast.Name) for e in t.elts)):
-            continue
-        D = m["_D_"]
+        if m and isinstance(t, ast.Tuple) and len(t.elts) == 2 and all(isinstance(e, ast.Name) for e in t.elts):
+            D = m["_D_"]
+            k, v = t.elts[0].id, t.elts[1].id
+        else:
+            m = kany(["_D_.keys()", "list(_D_)", "list(_D_.keys())", "tuple(_D_)"], lp.iter)
+            D = m["_D_"] if m else lp.iter
+            if not isinstance(t, ast.Name):
+                continue
+            k, v = t.id, f"{_u(D)}[{t.id}]"
         if not any(_reads_created(x) for x in _defs(nf, D)):
             continue
         found += 1
-        k, v = t.elts[0].id, t.elts[1].id
         dtxt = _u(D)
         writes = [c for c, _e in find(lp, f"_O_.update_context(_CTX_, {k}, {v})")]
         line = getattr(lp, "lineno", raw.lineno)
@@ -1485,6 +1862,290 @@ def _expression_scope(repo: Repo, R: Report) -> None:
         raise AnalysisError("no evaluation site found in the callables of the sweep's parametric expressions")
 
 
+# ---------------------------------------------------------------------------------------------------------
+# D1: an algebra of collections aligned with the keys of the sweep's `sequences` mapping
+# ---------------------------------------------------------------------------------------------------------
+
+_KEY, _SEQ, _COMP, _IMPL = ("key",), ("seq",), ("comp",), ("sym", "<zip position>")
+
+
+class _Aligned:
+    """Symbolic value of an expression of `_iterate_sweep` (locals already expanded).  Every collection the function
+    handles is *aligned with the keys of the sequences mapping*: it has one entry per variable, in some order, and the
+    entry is a function of the variable.  Such a collection is represented as
+
+        ("D", order, v)   a dict  {K: v(K)}  over all variable names K, in `order`
+        ("L", order, f)   a list / tuple / iterator  [f(K)]  over all variable names K, in `order`
+
+    with order "ins" (the mapping's own order), "sorted" (plain sorted names), "unordered" (a set) or anything else (a
+    custom sort), and v / f terms over  ("key",) = K,  ("seq",) = the given sequence of K,  ("comp",) = the component
+    of the current product tuple that belongs to K,  ("pos", order) = the position of K in that order, ("len", t),
+    ("idx", t, i), ("mod", a, b), ("sym", loop variable), ("const", c), ("maxlen",), ("minlen",), ("tuple", ...),
+    ("ifexp", c, a, b), ("cmp", op, a, b), ("rlist", n, var, body) = [body for var in range(n)].
+    keys() / values() / items() / zip / enumerate / sorted / list / dict / comprehensions / subscripts are evaluated on
+    this representation, so *how* a record or a list is traversed and assembled does not matter, only which entry ends
+    up under which name, in which order.  What is not understood becomes an opaque ("raw", ...) term that equals
+    nothing the documented forms are compared with."""
+
+    def __init__(self, seqs: str):
+        self.seqs = seqs
+        self.bounds: Dict[Tuple, Tuple] = {}  # loop index -> the n of the range(n) it runs over
+
+    # -- helpers --------------------------------------------------------------------------------------------
+    @staticmethod
+    def as_list(v: Tuple) -> Optional[Tuple]:
+        if v[0] == "D":
+            return ("L", v[1], _KEY)
+        if v[0] == "L":
+            return v
+        return None
+
+    def bind(self, target: ast.AST, value: Tuple, env: Dict[str, Tuple]) -> None:
+        if isinstance(target, ast.Name):
+            env[target.id] = value
+        elif isinstance(target, (ast.Tuple, ast.List)) and value[0] == "tuple" and len(value) - 1 == len(target.elts) and not any(isinstance(x, ast.Starred) for x in target.elts):
+            for t, v in zip(target.elts, value[1:]):
+                self.bind(t, v, env)
+        else:
+            for x in ast.walk(target):
+                if isinstance(x, ast.Name):
+                    env[x.id] = ("raw", f"unpacked {x.id}")
+
+    def subst(self, t, old: Tuple, new: Tuple):
+        if t == old:
+            return new
+        if isinstance(t, tuple):
+            return tuple(self.subst(x, old, new) for x in t)
+        return t
+
+    def index(self, xv: Tuple, iv: Tuple) -> Tuple:
+        if xv[0] == "D":
+            return xv[2] if iv == _KEY else ("raw", "dict item", xv, iv)
+        if xv[0] == "L":
+            if iv == ("pos", xv[1]):
+                return xv[2]  # the entry at the position of K in a list of the same order is the entry of K
+            if iv[0] == "const":
+                return ("at", xv, iv[1])
+            return ("idx", xv, iv)
+        if xv[0] == "ifexp":
+            return ("ifexp", xv[1], self.index(xv[2], iv), self.index(xv[3], iv))
+        if xv[0] == "rlist" and self.bounds.get(iv) == xv[1]:
+            return self.subst(xv[3], ("sym", xv[2]), iv)  # [body(j) for j in range(n)][i] with i in range(n)
+        return ("idx", xv, iv)
+
+    def length(self, xv: Tuple) -> Tuple:
+        if xv[0] == "at" and xv[1][0] == "L":
+            return ("at", ("L", xv[1][1], ("len", xv[1][2])), xv[2])  # len(first of the values) = first of the lengths
+        return ("len", xv)
+
+    def comprehension(self, node: ast.AST, env: Dict[str, Tuple]) -> Tuple:
+        gens = node.generators
+        raw = ("raw", ast.dump(node))
+        if len(gens) != 1 or gens[0].ifs or gens[0].is_async:
+            return raw
+        it = self.ev(gens[0].iter, env)
+        env2 = dict(env)
+        lst = self.as_list(it)
+        if lst is not None:
+            self.bind(gens[0].target, lst[2], env2)
+            if isinstance(node, ast.DictComp):
+                k, v = self.ev(node.key, env2), self.ev(node.value, env2)
+                return ("D", lst[1], v) if k == _KEY else raw
+            f = self.ev(node.elt, env2)
+            return ("L", "unordered" if isinstance(node, ast.SetComp) else lst[1], f)
+        if it[0] == "range" and isinstance(gens[0].target, ast.Name) and isinstance(node, (ast.ListComp, ast.GeneratorExp)):
+            var = gens[0].target.id
+            env2[var] = ("sym", var)
+            return ("rlist", it[1], var, self.ev(node.elt, env2))
+        return raw
+
+    # -- evaluation -----------------------------------------------------------------------------------------
+    def ev(self, e: ast.AST, env: Dict[str, Tuple]) -> Tuple:
+        if isinstance(e, ast.Constant):
+            return ("const", e.value)
+        if isinstance(e, ast.Name):
+            if e.id in env:
+                return env[e.id]
+            return ("D", "ins", _SEQ) if e.id == self.seqs else ("name", e.id)
+        if isinstance(e, (ast.Tuple, ast.List)) and not any(isinstance(x, ast.Starred) for x in e.elts):
+            return ("tuple",) + tuple(self.ev(x, env) for x in e.elts)
+        if isinstance(e, (ast.ListComp, ast.GeneratorExp, ast.SetComp, ast.DictComp)):
+            return self.comprehension(e, env)
+        if isinstance(e, ast.IfExp):
+            return ("ifexp", self.ev(e.test, env), self.ev(e.body, env), self.ev(e.orelse, env))
+        if isinstance(e, ast.Compare) and len(e.ops) == 1:
+            return ("cmp", type(e.ops[0]).__name__, self.ev(e.left, env), self.ev(e.comparators[0], env))
+        if isinstance(e, ast.BinOp):
+            a, b = self.ev(e.left, env), self.ev(e.right, env)
+            return ("mod", a, b) if isinstance(e.op, ast.Mod) else ("bin", type(e.op).__name__, a, b)
+        if isinstance(e, ast.UnaryOp):
+            a = self.ev(e.operand, env)
+            if isinstance(e.op, ast.USub) and a[0] == "const" and isinstance(a[1], (int, float)):
+                return ("const", -a[1])
+            return ("un", type(e.op).__name__, a)
+        if isinstance(e, ast.BoolOp):
+            return ("bool", type(e.op).__name__) + tuple(self.ev(v, env) for v in e.values)
+        if isinstance(e, ast.Subscript):
+            if isinstance(e.slice, ast.Slice):
+                return ("raw", ast.dump(e))
+            return self.index(self.ev(e.value, env), self.ev(e.slice, env))
+        if isinstance(e, ast.Call):
+            return self.call(e, env)
+        return ("raw", ast.dump(e))
+
+    def call(self, e: ast.Call, env: Dict[str, Tuple]) -> Tuple:
+        raw = ("raw", ast.dump(e))
+        fn = dotted_name(e.func) or ""
+        star = [a for a in e.args if isinstance(a, ast.Starred)]
+        if isinstance(e.func, ast.Attribute) and e.func.attr in ("keys", "values", "items") and not e.args and not e.keywords:
+            xv = self.ev(e.func.value, env)
+            if xv[0] == "D":
+                return ("L", xv[1], {"keys": _KEY, "values": xv[2], "items": ("tuple", _KEY, xv[2])}[e.func.attr])
+            return raw
+        if fn in ("itertools.product", "product") and len(e.args) == 1 and star and not e.keywords:
+            lst = self.as_list(self.ev(star[0].value, env))
+            return ("product", lst[1], lst[2]) if lst else raw
+        if fn == "zip" and len(e.args) == 1 and star and not e.keywords:
+            lst = self.as_list(self.ev(star[0].value, env))
+            return ("zipstar", lst[1], lst[2]) if lst else raw
+        if star or any(k.arg is None for k in e.keywords):
+            return raw
+        args = [self.ev(a, env) for a in e.args]
+        if fn == "sorted" and len(args) == 1:
+            lst = self.as_list(args[0])
+            if lst is None:
+                return raw
+            by_name = lst[2] == _KEY or (lst[2][0] == "tuple" and len(lst[2]) > 1 and lst[2][1] == _KEY)  # names are unique: pairs sort by name
+            if e.keywords or not by_name:
+                return ("L", ("sorted by", tuple(f"{k.arg}={ast.dump(k.value)}" for k in e.keywords), lst[2]), lst[2])
+            return ("L", "sorted", lst[2])
+        if e.keywords:
+            return raw
+        if fn in ("list", "tuple", "iter") and len(args) == 1:
+            return self.as_list(args[0]) or ("call", fn, args[0])
+        if fn in ("set", "frozenset") and len(args) == 1:
+            lst = self.as_list(args[0])
+            return ("L", "unordered", lst[2]) if lst else raw
+        if fn == "dict" and len(args) == 1:
+            if args[0][0] == "D":
+                return args[0]
+            lst = self.as_list(args[0])
+            if lst and lst[2][0] == "tuple" and len(lst[2]) == 3 and lst[2][1] == _KEY:
+                return ("D", lst[1], lst[2][2])
+            return raw
+        if fn == "zip" and len(args) >= 2:
+            ls = [self.as_list(a) for a in args]
+            if all(l is not None for l in ls) and len({l[1] for l in ls}) == 1 and ls[0][1] != "unordered":
+                return ("L", ls[0][1], ("tuple",) + tuple(l[2] for l in ls))  # same names, same order: aligned entry by entry
+            return raw
+        if fn == "enumerate" and len(args) == 1:
+            lst = self.as_list(args[0])
+            return ("L", lst[1], ("tuple", ("pos", lst[1]), lst[2])) if lst and lst[1] != "unordered" else raw
+        if fn == "len" and len(args) == 1:
+            return self.length(args[0])
+        if fn in ("max", "min") and len(args) == 1:
+            lst = self.as_list(args[0])
+            if lst and lst[2] == ("len", _SEQ):
+                return ("maxlen",) if fn == "max" else ("minlen",)
+            return raw
+        if fn == "map" and len(args) == 2 and args[0] == ("name", "len"):
+            lst = self.as_list(args[1])
+            return ("L", lst[1], ("len", lst[2])) if lst else raw
+        if fn == "range" and (len(args) == 1 or (len(args) == 2 and args[0] == ("const", 0))):
+            return ("range", args[-1])
+        if fn == "next" and len(args) == 1:
+            lst = self.as_list(args[0])
+            return ("at", lst, 0) if lst and lst[1] != "unordered" else raw
+        if fn in ("all", "any") and len(args) == 1:
+            lst = self.as_list(args[0])
+            return (fn, lst[2]) if lst else raw
+        return ("call", fn or ast.dump(e.func)) + tuple(args)
+
+    # -- the documented forms ---------------------------------------------------------------------------------
+    @staticmethod
+    def is_lengths(v: Tuple) -> bool:
+        return v[0] == "L" and v[2] == ("len", _SEQ)
+
+    def any_length(self, v: Tuple) -> bool:
+        """one of the lengths (all of them are equal behind the equal-length guard)"""
+        return v in (("maxlen",), ("minlen",)) or (v[0] == "at" and self.is_lengths(v[1]))
+
+    def equal_lengths(self, t: Tuple) -> Optional[bool]:
+        """the truth of test *t* says that all sequences have the same length (True) / that they do not (False)"""
+        if t[0] == "all" and t[1][0] == "cmp" and t[1][1] == "Eq":
+            a, b = t[1][2], t[1][3]
+            if (a == ("len", _SEQ) and self.any_length(b)) or (b == ("len", _SEQ) and self.any_length(a)):
+                return True
+        if t[0] == "any" and t[1][0] == "cmp" and t[1][1] == "NotEq":
+            a, b = t[1][2], t[1][3]
+            if (a == ("len", _SEQ) and self.any_length(b)) or (b == ("len", _SEQ) and self.any_length(a)):
+                return False
+        if t[0] != "cmp":
+            return None
+        op, a, b = t[1], t[2], t[3]
+        flip = {"Lt": "Gt", "Gt": "Lt", "LtE": "GtE", "GtE": "LtE", "Eq": "Eq", "NotEq": "NotEq"}
+        if a[0] == "const" and op in flip:
+            op, a, b = flip[op], b, a
+        if a[0] == "len" and a[1][0] == "L" and a[1][1] == "unordered" and a[1][2] == ("len", _SEQ) and b[0] == "const":
+            # the number of distinct lengths (at least one: the mapping is not empty)
+            return {("NotEq", 1): False, ("Gt", 1): False, ("GtE", 2): False, ("Eq", 1): True, ("LtE", 1): True, ("Lt", 2): True}.get((op, b[1]))
+        if {a, b} == {("minlen",), ("maxlen",)}:
+            if op == "Eq":
+                return True
+            if op == "NotEq" or (op, a) in (("Lt", ("minlen",)), ("Gt", ("maxlen",))):
+                return False
+        return None
+
+    @staticmethod
+    def _longest(c: Tuple, pol: bool) -> bool:
+        """test *c* having truth value *pol* guarantees len(seq of K) == the longest length"""
+        if c[0] != "cmp":
+            return False
+        op, a, b = c[1], c[2], c[3]
+        if a == ("maxlen",) and b == ("len", _SEQ):
+            op, a, b = {"Lt": "Gt", "Gt": "Lt", "LtE": "GtE", "GtE": "LtE"}.get(op, op), b, a
+        if a != ("len", _SEQ) or b != ("maxlen",):
+            return False
+        return (op, pol) in (("Eq", True), ("NotEq", False), ("Lt", False), ("GtE", True))
+
+    def cycled_entry(self, v: Tuple, i: Tuple) -> bool:
+        """v is item i of the sequence of K cycled up to the longest length: seq[i % len(seq)], where `seq[i]` will do
+        on the branches that guarantee len(seq) == the longest length (i runs below it)"""
+        def walk(t: Tuple, conds: Tuple) -> bool:
+            if t[0] == "ifexp":
+                return walk(t[2], conds + ((t[1], True),)) and walk(t[3], conds + ((t[1], False),))
+            if t == ("idx", _SEQ, ("mod", i, ("len", _SEQ))):
+                return True
+            return t == ("idx", _SEQ, i) and any(self._longest(c, pol) for c, pol in conds)
+        return walk(v, ())
+
+    def position_entry(self, v: Tuple, i: Tuple) -> bool:
+        """v is item i of the sequence of K, i running below the common length of all sequences (seq[i % len(seq)] is
+        seq[i] then)"""
+        if v[0] == "ifexp":
+            return self.position_entry(v[2], i) and self.position_entry(v[3], i)
+        return v in (("idx", _SEQ, i), ("idx", _SEQ, ("mod", i, ("len", _SEQ))))
+
+    def column_length(self, g: Tuple) -> Optional[Tuple]:
+        """the common length of the columns [g(K)] handed to zip(*...), when it can be told"""
+        if g == _SEQ:
+            return ("minlen",)
+        ns = set()
+
+        def walk(t: Tuple, conds: Tuple) -> None:
+            if t[0] == "ifexp":
+                walk(t[2], conds + ((t[1], True),))
+                walk(t[3], conds + ((t[1], False),))
+            elif t[0] == "rlist":
+                ns.add(t[1])
+            elif t == _SEQ and any(self._longest(c, pol) for c, pol in conds):
+                ns.add(("maxlen",))
+            else:
+                ns.add(None)
+        walk(g, ())
+        return ns.pop() if len(ns) == 1 and None not in ns else None
+
+
 def run(repo: Repo, R: Report) -> None:
     R.assume(
         "itertools.product varies the rightmost sequence fastest; numpy.linspace/logspace return the documented values for their arguments",
@@ -1497,7 +2158,7 @@ def run(repo: Repo, R: Report) -> None:
     # edges that are impossible in the scenario are blocked, and what every reachable `yield` produces - the loop
     # it sits in and the yielded value, with locals expanded to their reaching definitions - is compared with the
     # documented step sequence.
-    r_it = R.rule("C03-D1-step-enumeration", "combinatorial: product over the sequences taken in plain sorted variable-name order, each step dict(zip(names, combo)); by_position: unequal lengths rejected unless broadcast, broadcast cycles seq[i % len(seq)] up to the longest, steps are positions 0..n-1", 7)
+    r_it = R.rule("C03-D1-step-enumeration", "combinatorial: product over the sequences taken in plain sorted variable-name order, each step dict(zip(names, combo)); by_position: unequal lengths rejected unless broadcast, broadcast cycles seq[i % len(seq)] up to the longest, steps are positions 0..n-1", 8)
     it = repo.func(SWEEP, "_iterate_sweep")
     if not it.args.args:
         raise AnalysisError("_iterate_sweep: the sequences parameter was not found")
@@ -1518,20 +2179,36 @@ def run(repo: Repo, R: Report) -> None:
         return None
 
     def a_bc(e: ast.AST) -> Optional[bool]:
-        if dotted_name(e) == bc or kmatch(f"{bc} is True", e) or kmatch(f"bool({bc})", e):
+        if dotted_name(e) == bc or kany((f"{bc} is True", f"bool({bc})", f"{bc} == True", f"{bc} is not False", f"{bc} != False"), e):
             return True
-        if kmatch(f"{bc} is False", e):
+        if kany((f"{bc} is False", f"{bc} == False", f"{bc} is not True", f"{bc} != True"), e):
             return False
         return None
 
     def neg(atom):
         return lambda e: (None if atom(e) is None else not atom(e))
 
-    E_bp, E_cb = F1.edges(a_bypos), F1.edges(neg(a_bypos))
-    E_b, E_nb = F1.edges(a_bc), F1.edges(neg(a_bc))
-    if not E_bp or not E_cb or not E_b or not E_nb:
+    def scenario(bypos: bool, bcast: Optional[bool]):
+        """truth of the atomic tests on mode / broadcast in one of the three documented cases"""
+        def known(e: ast.AST) -> Optional[bool]:
+            v = a_bypos(e)
+            if v is not None:
+                return v == bypos
+            v = a_bc(e) if bcast is not None else None
+            return None if v is None else v == bcast
+        return known
+
+    K_C, K_PB, K_PN = scenario(False, None), scenario(True, True), scenario(True, False)
+    # the branch edges that cannot be taken in each case: a test whose truth is known in the case - a plain test on
+    # mode / broadcast or a compound one such as `by_position and broadcast`, `not broadcast and <lengths differ>` -
+    # has only one way out.  (An edge that guarantees the opposite of the case is one of them, so nothing has to be
+    # known about *where* the function separates the cases: nested ifs, guard clauses with early return and compound
+    # tests are the same thing here.)
+    SC_C, SC_PB, SC_PN = (frozenset(F1.impossible(k)) for k in (K_C, K_PB, K_PN))
+    # anchor: the function does tell the three cases apart somewhere (a dispatch on mode / broadcast the atoms above do
+    # not read is an unknown shape; a function that really ignores one of them fails the comparisons below)
+    if SC_C == SC_PB or SC_PB == SC_PN:
         raise AnalysisError("_iterate_sweep: the branches on mode / broadcast were not found")
-    SC_C, SC_PB, SC_PN = frozenset(E_bp), frozenset(E_cb | E_nb), frozenset(E_cb | E_b)
     ynodes = [y for y in walk_no_nested(F1.fn) if isinstance(y, ast.Yield)]
 
     def yields(sc) -> List[ast.Yield]:
@@ -1541,76 +2218,49 @@ def run(repo: Repo, R: Report) -> None:
     def loop_of(y: ast.AST) -> Optional[ast.For]:
         return next((a for a in ancestors(y) if isinstance(a, ast.For) and any(a is x for x in walk_no_nested(F1.fn))), None)
 
-    def unwrap(e: ast.AST) -> ast.AST:
-        m = kmatch("list(_X_)", e) or kmatch("tuple(_X_)", e)
-        return m["_X_"] if m and isinstance(m["_X_"], (ast.ListComp, ast.GeneratorExp, ast.Call)) else e
+    A = _Aligned(seqs)
 
-    def is_seqs(e: Optional[ast.AST]) -> bool:
-        return isinstance(e, ast.Name) and e.id == seqs
-
-    def is_lengths(e: Optional[ast.AST]) -> bool:
-        """the lengths of all sequences, as a list / generator"""
-        e = unwrap(e) if e is not None else None
-        m = kany(["[len(_s_) for _s_ in _S_.values()]", "(len(_s_) for _s_ in _S_.values())", "[len(_S_[_k_]) for _k_ in _S_]", "(len(_S_[_k_]) for _k_ in _S_)",
-                  "[len(_s_) for (_k_, _s_) in _S_.items()]", "(len(_s_) for (_k_, _s_) in _S_.items())", "map(len, _S_.values())"], e)
-        return bool(m) and is_seqs(m["_S_"])
-
-    def is_max(e: Optional[ast.AST]) -> bool:
-        m = kmatch("max(_L_)", e)
-        return bool(m) and is_lengths(m["_L_"])
-
-    def is_any_length(e: Optional[ast.AST]) -> bool:
-        """one of the (equal) lengths: valid only behind the equal-length guard"""
-        m = kany(["_L_[_c_]", "min(_L_)", "max(_L_)"], e)
-        if m and is_lengths(m["_L_"]) and ("_c_" not in m or isinstance(m["_c_"], ast.Constant)):
-            return True
-        m = kmatch("len(next(iter(_S_.values())))", e)
-        return bool(m) and is_seqs(m["_S_"])
-
-    def is_sorted_names(e: Optional[ast.AST]) -> bool:
-        m = kany(["sorted(_S_.keys())", "sorted(_S_)", "sorted(list(_S_))", "sorted(list(_S_.keys()))", "sorted(set(_S_))"], e)
-        return bool(m) and is_seqs(m["_S_"])
-
-    def is_cycled(e: Optional[ast.AST]) -> bool:
-        """{name: seq cycled up to the longest length} for every sequence"""
-        m = kany(["{_k_: (_s_ if len(_s_) == _M_ else [_s_[_j_ % len(_s_)] for _j_ in range(_M_)]) for (_k_, _s_) in _S_.items()}",
-                  "{_k_: ([_s_[_j_ % len(_s_)] for _j_ in range(_M_)] if len(_s_) != _M_ else _s_) for (_k_, _s_) in _S_.items()}",
-                  "{_k_: ([_s_[_j_ % len(_s_)] for _j_ in range(_M_)] if len(_s_) < _M_ else _s_) for (_k_, _s_) in _S_.items()}",
-                  "{_k_: [_s_[_j_ % len(_s_)] for _j_ in range(_M_)] for (_k_, _s_) in _S_.items()}",
-                  "{_k_: (_S_[_k_] if len(_S_[_k_]) == _M_ else [_S_[_k_][_j_ % len(_S_[_k_])] for _j_ in range(_M_)]) for _k_ in _S_}",
-                  "{_k_: [_S_[_k_][_j_ % len(_S_[_k_])] for _j_ in range(_M_)] for _k_ in _S_}"], e)
-        return bool(m) and is_seqs(m["_S_"]) and is_max(m["_M_"])
-
-    def position_step(value: ast.AST, idx: str, broadcast_on: bool) -> bool:
-        """value == {name: <sequence of name>[idx]} over all names, the sequences being the given ones
-        (broadcast off) or the cycled ones (broadcast on)"""
-        m = kany([f"{{_v_: _Q_[_v_][{idx}] for _v_ in _Q_}}", f"{{_v_: _Q_[_v_][{idx}] for _v_ in _Q_.keys()}}", f"{{_v_: _q_[{idx}] for (_v_, _q_) in _Q_.items()}}"], value)
-        if m:
-            return is_cycled(m["_Q_"]) if broadcast_on else is_seqs(m["_Q_"])
-        if broadcast_on:  # cycling done while indexing, nothing materialised
-            m = kany([f"{{_v_: _S_[_v_][{idx} % len(_S_[_v_])] for _v_ in _S_}}", f"{{_v_: _q_[{idx} % len(_q_)] for (_v_, _q_) in _S_.items()}}"], value)
-            return bool(m) and is_seqs(m["_S_"])
-        return False
+    def step_loop(y: ast.AST, sc) -> List[Tuple[Tuple, Optional[Tuple], Tuple]]:
+        """(what the loop around yield *y* runs over, what is yielded, the position index) in scenario *sc*, as values of the aligned-collection
+        algebra - one pair per combination of reaching definitions.  The yielded value is None when it cannot be told
+        (no loop, no plain loop variable)."""
+        lp = loop_of(y)
+        if lp is None or y.value is None:
+            return [(("raw", "no loop"), None, _IMPL)]
+        out: List[Tuple[Tuple, Optional[Tuple], Tuple]] = []
+        for x in F1.expand(lp.iter, F1.nid(lp), sc):
+            itv = A.ev(x, {})
+            env: Dict[str, Tuple] = {}
+            A.bounds = {}
+            idx = _IMPL
+            known = isinstance(lp.target, ast.Name)
+            if known and itv[0] == "range":
+                idx = env[lp.target.id] = ("sym", lp.target.id)
+                A.bounds[idx] = itv[1]
+            elif known and itv[0] == "product":
+                env[lp.target.id] = ("L", itv[1], _COMP)  # the product tuple: one component per name, in the order of the sequences
+            elif known and itv[0] == "zipstar":
+                n = A.column_length(itv[2])
+                if n is not None:
+                    A.bounds[_IMPL] = n
+                env[lp.target.id] = ("L", itv[1], A.index(itv[2], _IMPL))  # the tuple of the items at one position of every column
+                itv = ("range", n if n is not None else ("raw", "unknown column length"))
+            else:
+                known = False
+            vals = F1.expand(y.value, F1.nid(y), sc) if known else []
+            out += [(itv, A.ev(v, env), idx) for v in vals] or [(itv, None, idx)]
+        return out or [(("raw", "no iterable"), None, _IMPL)]
 
     # combinatorial
     ys = yields(SC_C)
     ok_sorted = ok_align = ok_prod = ok_zip = bool(ys)
     for y in ys:
-        lp = loop_of(y)
-        its = F1.expand(lp.iter, F1.nid(lp), SC_C) if lp is not None else []
-        vals = F1.expand(y.value, F1.nid(y), SC_C) if y.value is not None else []
-        if not its or not vals or not isinstance(lp.target, ast.Name):
-            ok_sorted = ok_align = ok_prod = ok_zip = False
-            continue
-        for x in its:
-            m = kmatch("itertools.product(*_A_)", x) or kmatch("product(*_A_)", x)
-            ok_prod = ok_prod and bool(m)
-            a = kany(["[_S_[_v_] for _v_ in _N_]", "(_S_[_v_] for _v_ in _N_)"], unwrap(m["_A_"])) if m else None
-            ok_align = ok_align and bool(a) and is_seqs(a["_S_"])
-            ok_sorted = ok_sorted and bool(a) and is_sorted_names(a["_N_"])
-            for v in vals:
-                z = kany(["dict(zip(_N_, _C_))", "{_k_: _x_ for (_k_, _x_) in zip(_N_, _C_)}"], v)
-                ok_zip = ok_zip and bool(z) and bool(a) and ast.dump(z["_N_"]) == ast.dump(a["_N_"]) and _u(z["_C_"]) == lp.target.id
+        for itv, val, _i in step_loop(y, SC_C):
+            prod = itv[0] == "product"
+            ok_prod = ok_prod and prod
+            ok_align = ok_align and prod and itv[2] == _SEQ
+            ok_sorted = ok_sorted and prod and itv[1] == "sorted"
+            ok_zip = ok_zip and prod and val == ("D", itv[1], _COMP)
     R.check(ok_sorted, r_it, SWEEP, "_iterate_sweep", "names = sorted(sequences.keys())", "variable names are not taken in plain sorted order (custom key / mapping order): the element sequence is permuted", it.lineno)
     R.check(ok_align, r_it, SWEEP, "_iterate_sweep", "seqs = [sequences[v] for v in names]", "sequences are not aligned with the sorted names", it.lineno)
     R.check(ok_prod, r_it, SWEEP, "_iterate_sweep", "itertools.product(*seqs)", "combinatorial steps are not the Cartesian product of the sorted sequences", it.lineno)
@@ -1618,25 +2268,11 @@ def run(repo: Repo, R: Report) -> None:
 
     # by_position without broadcast: the equal-length guard
     def a_equal(e: ast.AST) -> Optional[bool]:
-        m = kany(["len(_D_) != 1", "len(_D_) > 1", "len(_D_) >= 2", "1 != len(_D_)"], e)
-        pol = False
-        if not m:
-            m, pol = kany(["len(_D_) == 1", "len(_D_) <= 1", "len(_D_) < 2", "1 == len(_D_)"], e), True
-        if m:
-            d = kmatch("set(_L_)", m["_D_"]) or kany(["{len(_s_) for _s_ in _S_.values()}", "{len(_S_[_k_]) for _k_ in _S_}"], m["_D_"])
-            if d and (is_lengths(d.get("_L_")) if "_L_" in d else is_seqs(d["_S_"])):
-                return pol
-            return None
-        m = kany(["min(_L_) != max(_L_)", "max(_L_) != min(_L_)", "min(_L_) < max(_L_)", "max(_L_) > min(_L_)"], e)
-        if m and is_lengths(m["_L_"]):
-            return False
-        m = kany(["min(_L_) == max(_L_)", "max(_L_) == min(_L_)"], e)
-        if m and is_lengths(m["_L_"]):
-            return True
-        return None
+        return A.equal_lengths(A.ev(e, {}))
 
     ys = yields(SC_PN)
-    E_eq, E_ne = F1.edges(a_equal, SC_PN), F1.edges(neg(a_equal), SC_PN)
+    E_eq = F1.edges(a_equal, SC_PN) | F1.edges_in(a_equal, K_PN, SC_PN)
+    E_ne = F1.edges(neg(a_equal), SC_PN) | F1.edges_in(neg(a_equal), K_PN, SC_PN)
     seen = g1.reach([g1.entry], blocked_edges=set(SC_PN) | E_eq)
     leak = [F1.nid(y) for y in ys if F1.nid(y) in seen]
     R.check(bool(ys) and bool(E_eq) and not leak, r_it, SWEEP, "_iterate_sweep", "by_position yields only after broadcast or the equal-length test", "positions are aligned although lengths differ and broadcast is off", it.lineno, g1.path_to(seen, leak[0]) if leak else [])
@@ -1648,32 +2284,24 @@ def run(repo: Repo, R: Report) -> None:
     ok = bool(starts) and not escaped
     R.check(ok, r_it, SWEEP, "_iterate_sweep", "unequal lengths raise ValueError", "unequal lengths are not rejected with ValueError", it.lineno, g1.path_to(seen, escaped[0]) if escaped else [])
 
-    # by_position with broadcast
+    # by_position with broadcast: unequal lengths are what broadcast is for - the steps are still produced when the
+    # lengths differ (no path to a yield needs an edge that guarantees equal lengths)
     ys = yields(SC_PB)
+    E_eq_b = F1.edges(a_equal, SC_PB) | F1.edges_in(a_equal, K_PB, SC_PB)
+    seen = g1.reach([g1.entry], blocked_edges=set(SC_PB) | E_eq_b)
+    R.check(any(F1.nid(y) in seen for y in ys), r_it, SWEEP, "_iterate_sweep", "broadcast accepts sequences of different lengths", "with broadcast on, sequences of different lengths are rejected (or produce no steps) instead of being cycled", it.lineno)
+    # positions 0 .. longest-1, every record {name: seq[i % len(seq)]} in the mapping's order
     ok = bool(ys)
     for y in ys:
-        lp = loop_of(y)
-        its = F1.expand(lp.iter, F1.nid(lp), SC_PB) if lp is not None else []
-        vals = F1.expand(y.value, F1.nid(y), SC_PB) if y.value is not None else []
-        ok = ok and bool(its) and bool(vals) and isinstance(lp.target, ast.Name)
-        for x in its:
-            m = kmatch("range(_K_)", x) or kmatch("range(0, _K_)", x)
-            ok = ok and bool(m) and is_max(m["_K_"])
-        for v in vals:
-            ok = ok and isinstance(lp.target, ast.Name) and position_step(v, lp.target.id, True)
+        for itv, val, i in step_loop(y, SC_PB):
+            ok = ok and itv == ("range", ("maxlen",)) and val is not None and val[0] == "D" and val[1] == "ins" and A.cycled_entry(val[2], i)
     R.check(ok, r_it, SWEEP, "_iterate_sweep", "broadcast: seq[i % len(seq)] for i in range(max(len))", "broadcast does not cycle shorter sequences up to the longest one", it.lineno)
+    # without broadcast: positions 0 .. n-1 of the (equally long) sequences, every record {name: seq[i]} in the mapping's order
     ys = yields(SC_PN)
     ok = bool(ys)
     for y in ys:
-        lp = loop_of(y)
-        its = F1.expand(lp.iter, F1.nid(lp), SC_PN) if lp is not None else []
-        vals = F1.expand(y.value, F1.nid(y), SC_PN) if y.value is not None else []
-        ok = ok and bool(its) and bool(vals) and isinstance(lp.target, ast.Name)
-        for x in its:
-            m = kmatch("range(_K_)", x) or kmatch("range(0, _K_)", x)
-            ok = ok and bool(m) and is_any_length(m["_K_"])
-        for v in vals:
-            ok = ok and isinstance(lp.target, ast.Name) and position_step(v, lp.target.id, False)
+        for itv, val, i in step_loop(y, SC_PN):
+            ok = ok and itv[0] == "range" and A.any_length(itv[1]) and val is not None and val[0] == "D" and val[1] == "ins" and A.position_entry(val[2], i)
     R.check(ok, r_it, SWEEP, "_iterate_sweep", "for i in range(step_count): yield {var: sequences[var][i]}", "by_position steps are not the aligned positions in order", it.lineno)
 
     # ------------------------------------------------------------------ D2
@@ -1683,7 +2311,7 @@ def run(repo: Repo, R: Report) -> None:
     base_p = next((a for a in kw if "base" in a), kw[0] if kw else "base_kwargs")
     expr_p = next((a for a in kw if "expr" in a), kw[-1] if kw else "expression_outputs")
     layers = _merge_layers(nfunc(repo, SWEEP, "_merge_call_parameters", copyprop="all"), {base_p, expr_p})
-    ok = layers == [base_p, expr_p]
+    ok = layers is not None and all(ls == [x for x in (base_p, expr_p) if x not in empty] for ls, empty in layers)
     R.check(ok, r_m, SWEEP, "_merge_call_parameters", "merged = dict(base_kwargs); merged.update(expression_outputs)", "computed-by-expression values no longer take precedence over provided ones", mg.lineno)
     _expression_scope(repo, R)
 
@@ -1701,7 +2329,10 @@ def run(repo: Repo, R: Report) -> None:
         d: Dict[str, str] = {}
         S = "cls" if f.name == "_get_data" else "self"
         kwname = f.args.kwarg.arg if f.args.kwarg else "kwargs"
-        FV = Flow(normalize(repo, repo.module(SWEEP), f, keep=KEEP, copyprop="all"))
+        nfv = normalize(repo, repo.module(SWEEP), f, keep=KEEP, copyprop="all")
+        wv = _unroll_sweep_comprehension(clone(nfv))
+        wv._parent = parent(nfv)  # type: ignore[attr-defined]
+        FV = Flow(wv)
         gv = FV.g
         body_calls = [c for c in ast.walk(FV.fn) if isinstance(c, ast.Call) and any(c is x for x in walk_no_nested(FV.fn))]
         # the element call
@@ -1801,8 +2432,36 @@ def run(repo: Repo, R: Report) -> None:
     r_p = R.rule("C03-D4-publication", "every variant declares <var>_values for each variable, materialisation stores exactly those keys, each variant hands them to the run context (or leaves them for the node), and the probe node publishes and declares them", 9)
     create = repo.func(SWEEP, CREATE)
     gck = [n for n in ast.walk(create) if isinstance(n, FuncNode) and n.name == "get_created_keys"]
+
+    def values_keys(x: ast.AST) -> bool:
+        """x is the list of '<var>_values' for every sweep variable of the class, in the variables' order"""
+        m = kany(["list(_X_)", "tuple(_X_)"], x)
+        if m and isinstance(m["_X_"], (ast.ListComp, ast.GeneratorExp)):
+            x = m["_X_"]
+        if not isinstance(x, (ast.ListComp, ast.GeneratorExp)) or len(x.generators) != 1 or x.generators[0].ifs or not isinstance(x.generators[0].target, ast.Name):
+            return False
+        v = x.generators[0].target.id
+        over = kany(["cls._vars", "cls._vars.keys()", "list(cls._vars)", "list(cls._vars.keys())", "tuple(cls._vars)"], x.generators[0].iter) is not None
+        return over and kany([f"f'{{{v}}}_values'", f"{v} + '_values'", f"'{{}}_values'.format({v})", f"'%s_values' % {v}", f"str({v}) + '_values'"], x.elt) is not None
+
+    def declares_values(x: ast.AST) -> bool:
+        """the <var>_values list is part of the list *x* evaluates to (possibly joined with the element's own keys): an
+        operand of a concatenation / a starred part of a display - not merely mentioned, e.g. in a filter"""
+        if values_keys(x):
+            return True
+        if isinstance(x, ast.BinOp) and isinstance(x.op, ast.Add):
+            return declares_values(x.left) or declares_values(x.right)
+        if isinstance(x, (ast.List, ast.Tuple)):
+            return any(isinstance(e, ast.Starred) and declares_values(e.value) for e in x.elts)
+        if isinstance(x, ast.IfExp):
+            return declares_values(x.body) and declares_values(x.orelse)
+        m = kany(["list(_X_)", "tuple(_X_)", "list(dict.fromkeys(_X_))"], x)
+        return bool(m) and declares_values(m["_X_"])
+
     for f in gck:
-        ok = bool(find(f, "[f'{_v_}_values' for _v_ in cls._vars]"))
+        FK = Flow(normalize(repo, repo.module(SWEEP), f, copyprop="all", loops=True))
+        rk = [x for r_ in walk_no_nested(FK.fn) if isinstance(r_, ast.Return) and r_.value is not None for x in FK.expand(r_.value, FK.nid(r_))]
+        ok = bool(rk) and all(declares_values(x) for x in rk)
         R.check(ok, r_p, SWEEP, qualname_of(f), "declares [f'{var}_values' for var in cls._vars]", "declared created keys are not <var>_values for every sweep variable", f.lineno)
     if len(gck) != 3:
         raise AnalysisError(f"{len(gck)} get_created_keys templates in the sweep factory (3 confirmed by reading)")
@@ -1882,7 +2541,34 @@ def run(repo: Repo, R: Report) -> None:
     R.check(ok, r_p, NODES, "_ProbeContextInjectorNode.get_created_keys", "context_key + processor's created keys", "the probe node does not declare the keys its swept processor creates", pk.lineno)
     for qn in ("_DataNode._process_single_item_with_context", "_DataOperationContextInjectorProbeNode._process_single_item_with_context"):
         f = repo.func(NODES, qn)
-        ok = bool(find(f, "setattr(self.processor, 'observer_context', _C_)")) or bool(find(f, "self.processor.observer_context = _C_"))
+        # found by role: a store to the attribute observer_context of what is the node's processor at that point (directly,
+        # through setattr or through a local that holds the processor), on every path to the processor's process() call
+        FO = Flow(nfunc(repo, NODES, qn, copyprop="all"))
+
+        def is_processor(e: ast.AST, at, depth: int = 0) -> bool:
+            """the object *e* denotes at statement / CFG node *at* is self.processor (identity: a local alias counts,
+            also one the attribute is stored through)"""
+            nid_ = at if isinstance(at, int) else FO.nid(at)
+            if dotted_name(e) == "self.processor":
+                return True
+            if not isinstance(e, ast.Name) or depth > 6:
+                return False
+            ds, entry = FO.rdefs(e.id, nid_)
+            vals = [(FO._def_value(e.id, d), d) for d in ds]
+            return bool(ds) and not entry and all(v is not None and is_processor(v, d, depth + 1) for v, d in vals)
+
+        sets: Set[int] = set()
+        runs: Set[int] = set()
+        for n in walk_no_nested(FO.fn):
+            if isinstance(n, ast.Assign) and any(isinstance(t, ast.Attribute) and t.attr == "observer_context" and is_processor(t.value, n) for t in n.targets):
+                sets.add(FO.nid(n))
+            elif isinstance(n, ast.Call):
+                m = kmatch("setattr(_P_, 'observer_context', _C_)", n)
+                if m and is_processor(m["_P_"], n):
+                    sets.add(FO.nid(n))
+                elif call_attr(n) == "process" and isinstance(n.func, ast.Attribute) and is_processor(n.func.value, n):
+                    runs.add(FO.nid(n))
+        ok = bool(sets) and bool(runs) and not (runs & set(_reach(FO.g, [FO.g.entry], sets)))
         R.check(ok, r_p, NODES, qn, "processor.observer_context = context before process()", "the swept processor has no context to publish <var>_values into", f.lineno)
 
     # ------------------------------------------------------------------ D5
@@ -1900,6 +2586,9 @@ def run(repo: Repo, R: Report) -> None:
             return False
         xs = FY.expand(e, FY.nid(call))
         return bool(xs) and all(kany(patterns, x) is not None for x in xs)
+
+    def is_spec(x: ast.AST) -> bool:
+        return isinstance(x, ast.Name) and x.id == sp
 
     rs = [c for c in calls_y if call_attr(c) == "RangeSpec" or call_name(c) == "RangeSpec"]
     # the other side of the conversion: the spec class the calls construct.  Positional arguments are bound in the order
@@ -1935,7 +2624,7 @@ def run(repo: Repo, R: Report) -> None:
     omitted: Set[str] = set()
     two, full = [], []
     for c in rs:
-        b = _bind_args(c, r_names)
+        b = _bind_args(c, r_names, lambda e, _c=c: FY.record_of(e, FY.nid(_c)))
         if b is not None:
             omitted |= {"scale", "endpoint"} - set(b)
         if b is None or not {"lo", "hi", "steps"} <= set(b) <= {"lo", "hi", "steps", "scale", "endpoint"}:
@@ -1944,7 +2633,7 @@ def run(repo: Repo, R: Report) -> None:
                 and ("scale" not in b or y_is(c, b["scale"], "'linear'")) and ("endpoint" not in b or y_is(c, b["endpoint"], "True"))):
             two.append(c)
         if (y_is(c, b["lo"], f"float({sp}['lo'])") and y_is(c, b["hi"], f"float({sp}['hi'])") and y_is(c, b["steps"], f"int({sp}['steps'])")
-                and y_is(c, b.get("scale"), f"{sp}.get('scale', 'linear')") and y_is(c, b.get("endpoint"), f"{sp}.get('endpoint', True)")):
+                and _field_read(FY, b.get("scale"), FY.nid(c), is_spec, "scale", ["'linear'"]) and _field_read(FY, b.get("endpoint"), FY.nid(c), is_spec, "endpoint", ["True"])):
             full.append(c)
     R.check(len(two) == 1, r_y, PREP, "_convert_var_specs", "[a, b] -> RangeSpec(lo=a, hi=b, steps=10)", "the two-number shorthand is not a 10-step linear range from a to b", cv.lineno)
     R.check(len(full) == 1 and len(rs) == 2, r_y, PREP, "_convert_var_specs", "{lo, hi, steps, scale='linear', endpoint=True} -> RangeSpec field by field", "range fields are swapped or documented defaults changed", cv.lineno)
@@ -1959,31 +2648,41 @@ def run(repo: Repo, R: Report) -> None:
         bad_rd = [FY.g.nodes[d_] for d_ in ds if FY.g.nodes[d_].kind != "for"]
         R.check(bool(ds) and not bad_rd, r_y, PREP, "_convert_var_specs", "the two-number shorthand applies to the variable's own (bare list) value only", f"`{bad_rd[0].text() if bad_rd else sp}` re-binds the spec before the [a, b] shorthand is applied: an explicit sequence written as a mapping (values: [a, b]) is expanded to a 10-step range instead of being swept as given", bad_rd[0].line if bad_rd else cv.lineno)
     ss = [c for c in calls_y if call_attr(c) == "SequenceSpec" or call_name(c) == "SequenceSpec"]
-    ss_args = [_bind_args(c, ["values"]) for c in ss]
+    ss_args = [_bind_args(c, ["values"], lambda e, _c=c: FY.record_of(e, FY.nid(_c))) for c in ss]
     ok = len(ss) == 2 and all(b is not None and set(b) == {"values"} for b in ss_args) and sorted(("bare" if y_is(c, b["values"], sp) else "mapping" if y_is(c, b["values"], f"{sp}['values']") else "?") for c, b in zip(ss, ss_args)) == ["bare", "mapping"]
     R.check(ok, r_y, PREP, "_convert_var_specs", "lists / {values} -> SequenceSpec(values as given)", "explicit sequences are transformed (sorted, deduplicated, ...)", cv.lineno)
     fc = [c for c in calls_y if call_attr(c) == "FromContext" or call_name(c) == "FromContext"]
-    fc_args = [_bind_args(c, ["key"]) for c in fc]
+    fc_args = [_bind_args(c, ["key"], lambda e, _c=c: FY.record_of(e, FY.nid(_c))) for c in fc]
     ok = len(fc) == 1 and fc_args[0] is not None and set(fc_args[0]) == {"key"} and y_is(fc[0], fc_args[0]["key"], f"{sp}['from_context']")
     R.check(ok, r_y, PREP, "_convert_var_specs", "{from_context: key} -> FromContext(key)", "from_context variables do not read the declared key", cv.lineno)
+    # the fields of the derive.parameter_sweep block as the factory receives them: decided on the normal form with value
+    # expansion per scenario (field present / absent), so the spelling of the default does not matter (_field_read)
     pnc = repo.func(PREP, "preprocess_node_config")
-    cc = next((c for c in calls_in(pnc) if call_name(c) == "ParametricSweepFactory.create"), None)
+    FN5 = Flow(nfunc(repo, PREP, "preprocess_node_config", keep=("_convert_var_specs",), copyprop="all"))
+    calls_n = [c for c in ast.walk(FN5.fn) if isinstance(c, ast.Call) and any(c is x for x in walk_no_nested(FN5.fn))]
+    cc = next((c for c in calls_n if call_name(c) == "ParametricSweepFactory.create" or call_attr(c) == "create" and "ParametricSweepFactory" in _u(c.func)), None)
+    cfn = repo.func(SWEEP, CREATE).args
+    cb = _bind_args(cc, [a_.arg for a_ in cfn.posonlyargs + cfn.args if a_.arg != "cls"], lambda e: FN5.record_of(e, FN5.nid(cc))) if cc is not None else None
 
-    def from_call(e: Optional[ast.AST], needle: str) -> bool:
-        if e is None:
-            return False
-        if needle in _u(e):
-            return True
-        return any(needle in _u(v) for x in ast.walk(e) if isinstance(x, ast.Name) for v in assigned_value(pnc, x.id))
+    def is_block(x: ast.AST) -> bool:
+        """x is the derive.parameter_sweep mapping of the node configuration"""
+        m = kany(["_D_['parameter_sweep']", "_D_.get('parameter_sweep')", "_D_.get('parameter_sweep', _ANY_)"], x)
+        return bool(m) and any(isinstance(c, ast.Constant) and c.value == "derive" for c in ast.walk(m["_D_"]))
 
-    ok = cc is not None
+    def block_field(e: Optional[ast.AST], at_call: ast.AST, key: str, *defaults: str) -> bool:
+        return _field_read(FN5, e, FN5.nid(at_call), is_block, key, defaults)
+
+    ok = cc is not None and cb is not None
     if ok:
-        ok = (from_call(kwarg(cc, "vars"), "_convert_var_specs(") and from_call(kwarg(cc, "parametric_expressions"), ".get('parameters'")
-              and from_call(kwarg(cc, "broadcast"), ".get('broadcast', False)") and from_call(kwarg(cc, "mode"), ".get('mode', 'combinatorial')")
-              and kwarg(cc, "collection_output") is not None and kwarg(cc, "element") is not None and kwarg(cc, "element_kind") is not None)
+        vx = FN5.expand(cb["vars"], FN5.nid(cc)) if "vars" in cb else []
+        ok = (bool(vx) and all(kmatch("_convert_var_specs(_V_)", x) is not None for x in vx)
+              and block_field(cb.get("parametric_expressions"), cc, "parameters", "{}", "dict()")
+              and block_field(cb.get("broadcast"), cc, "broadcast", "False")
+              and block_field(cb.get("mode"), cc, "mode", "'combinatorial'")
+              and cb.get("collection_output") is not None and cb.get("element") is not None and cb.get("element_kind") is not None)
     R.check(ok, r_y, PREP, "preprocess_node_config", "create(element, kind, collection, vars, expressions, mode='combinatorial', broadcast=False) from the block's fields", "a field of the derive.parameter_sweep block is not passed on to the factory as declared (or a documented default changed)", pnc.lineno)
-    cvc = next((c for c in calls_in(pnc) if call_attr(c) == "_convert_var_specs"), None)
-    ok = cvc is not None and bool(cvc.args) and from_call(cvc.args[0], ".get('variables')")
+    cvcs = [c for c in calls_n if call_name(c) == "_convert_var_specs"]
+    ok = len(cvcs) == 1 and len(cvcs[0].args) == 1 and not cvcs[0].keywords and block_field(cvcs[0].args[0], cvcs[0], "variables", "None")
     R.check(ok, r_y, PREP, "preprocess_node_config", "variables converted from the block's `variables` mapping", "sweep variables are not taken from derive.parameter_sweep.variables", pnc.lineno)
 
     # ------------------------------------------------------------------ D6
@@ -2047,7 +2746,7 @@ def run(repo: Repo, R: Report) -> None:
     ok = bool(lin)
     bad_c: Optional[ast.Call] = None
     for c in lin:
-        b = _bind_args(c, ["start", "stop", "num", "endpoint"])
+        b = _bind_args(c, ["start", "stop", "num", "endpoint"], lambda e, _c=c: F6.record_of(e, F6.nid(_c)))
         good = (b is not None and set(b) == {"start", "stop", "num", "endpoint"} and arg_is(c, b["start"], f"{spec}.lo") and arg_is(c, b["stop"], f"{spec}.hi")
                 and arg_is(c, b["num"], f"{spec}.steps") and arg_is(c, b["endpoint"], f"{spec}.endpoint") and F6.holds_at(c, a_linear))
         if not good:
@@ -2067,7 +2766,7 @@ def run(repo: Repo, R: Report) -> None:
     bad_c = None
     why6 = ""
     for c in logs:
-        b = _bind_args(c, ["start", "stop", "num", "endpoint", "base"])
+        b = _bind_args(c, ["start", "stop", "num", "endpoint", "base"], lambda e, _c=c: F6.record_of(e, F6.nid(_c)))
         good = (b is not None and {"start", "stop", "num"} <= set(b) <= {"start", "stop", "num", "endpoint", "base"} and arg_is(c, b["start"], f"np.log10({spec}.lo)", f"numpy.log10({spec}.lo)")
                 and arg_is(c, b["num"], f"{spec}.steps") and ("base" not in b or kany(["10", "10.0"], b["base"]) is not None)
                 and F6.holds_at(c, neg6(a_linear)))
@@ -2173,7 +2872,8 @@ def run(repo: Repo, R: Report) -> None:
 
     # ------------------------------------------------------------------ D6 (element-preserving copy)
     r_seq = R.rule("C03-D6-sequence-as-given", "for every variable kind the list that is swept and published is a plain list(<source>) copy - of the np.linspace / np.logspace result, of spec.values, of params[spec.key] - so item i keeps its value, type and position (no array coercion, sort, dedup or mapping), and is not modified in place afterwards", 5)
-    nms = nfunc(repo, SWEEP, "_materialize_sequences", copyprop="all")
+    nms = _canon_records(clone(nfunc(repo, SWEEP, "_materialize_sequences", copyprop="all")))
+    _attach_parents(nms)
     stores = [(n, {"_X_": n.value}) for n in walk_no_nested(nms) if isinstance(n, ast.Assign) and any(match(f"{SQ}[{var}]", t) for t in n.targets)]  # a chained store counts
     kinds: Set[str] = set()
 
